@@ -164,18 +164,30 @@ def run_family(res, prop, family, variant, cases, seed, tier, cells=None, extra_
                 res.inconclusive += 1
                 res.notes.append("watchdog fired once for %s and did not repeat (re-run verdict: %s)" % (f.case, again))
             continue
+        if f.key.endswith(":resume-budget"):
+            # fiber case that exceeded its resume budget: deterministic, so re-run it with ten times the budget; a
+            # scenario of a few fibers that does not finish within 20 million resumes makes no progress (livelock,
+            # e.g. spinning on a lock its own call stack holds); otherwise it was merely slow -> inconclusive
+            again = replay_case(f.replay_extra, timeout=900, more_args=["--budget", "20000000"])
+            if again in ("budget", "hang"):
+                f.key = f.key[:-len("resume-budget")] + "livelock"
+                f.detail = ("the scenario does not finish on this (deterministic) fiber schedule: still running after 20,000,000 "
+                            "fiber resumes (typical cases need a few thousand). " + f.detail)
+            else:
+                res.notes.append("resume budget exceeded once for %s, finished with a larger budget (%s)" % (f.case, again))
+                continue
         if prop in f.props or not f.props:
             res.findings.append(f)
         else:
             res.other.append(f)
 
 
-def replay_case(extra, timeout=120, verbose=False):
+def replay_case(extra, timeout=120, verbose=False, more_args=None):
     try:
         binary = build.harness(extra["family"], extra["variant"])
     except build.BuildError as e:
         return "build-error: %s" % e
-    cmd = [binary, "--one", extra["cell"], str(extra["idx"]), "--seed", str(extra["seed"])]
+    cmd = [binary, "--one", extra["cell"], str(extra["idx"]), "--seed", str(extra["seed"])] + list(more_args or [])
     try:
         p = subprocess.run(cmd, stdout=subprocess.PIPE, stderr=subprocess.STDOUT, timeout=timeout)
     except subprocess.TimeoutExpired:
@@ -184,6 +196,8 @@ def replay_case(extra, timeout=120, verbose=False):
         sys.stdout.write(p.stdout.decode(errors="replace"))
     if p.returncode == 0:
         return "held"
+    if p.returncode == 78:
+        return "budget"
     return "violated(exit %d)" % p.returncode
 
 
